@@ -4,6 +4,8 @@ package c15
 
 import (
 	"crypto"
+	_ "crypto/sha256"
+	_ "crypto/sha512"
 	"fmt"
 	"testing"
 
@@ -12,6 +14,7 @@ import (
 	"github.com/cloudflare/circl/internal/zzverif/ref/expand"
 	"github.com/cloudflare/circl/internal/zzverif/ref/keccak"
 	"github.com/cloudflare/circl/xof"
+	_ "golang.org/x/crypto/sha3"
 )
 
 // TestVerifExpander: RFC 9380 expand_message_xmd / expand_message_xof
@@ -26,7 +29,10 @@ func TestVerifExpander(t *testing.T) {
 		name string
 		h    crypto.Hash
 	}
-	mds := []mdh{{"SHA256", crypto.SHA256}, {"SHA384", crypto.SHA384}, {"SHA512", crypto.SHA512}}
+	// also hashes whose input block is longer than 128 octets (SHA3-256: 136,
+	// SHA3-224: 144; RFC 9380 section 5.3.1 names SHA3-256's block size)
+	mds := []mdh{{"SHA256", crypto.SHA256}, {"SHA384", crypto.SHA384}, {"SHA512", crypto.SHA512},
+		{"SHA3-256", crypto.SHA3_256}, {"SHA3-224", crypto.SHA3_224}, {"SHA3-512", crypto.SHA3_512}, {"SHA224", crypto.SHA224}, {"SHA512/256", crypto.SHA512_256}}
 	type xo struct {
 		name string
 		id   xof.ID
